@@ -320,8 +320,9 @@ def corr_pack(ctx: Ctx, drv):
 
 def run(ctx: Ctx):
     leanproj.check_theorems(ctx, MODULE, THEOREMS)
-    from .registry import THEOREMS_C05B
+    from .registry import THEOREMS_C05B, THEOREMS_C05C
     leanproj.check_theorems(ctx, "PyseqmVerif.Properties.C05b", THEOREMS_C05B)
+    leanproj.check_theorems(ctx, "PyseqmVerif.Properties.C05c", THEOREMS_C05C)
     drv = leanproj.Driver()
     try:
         try:
